@@ -364,7 +364,7 @@ func checkC19(c *Ctx) error {
 	gates := gatedFeatures(c)
 	nAcc := c.N(16, 400)
 	nVar := c.N(3, 5)
-	exprSp, _ := c03ExprSpellings()
+	exprSp, _ := c03ExprSpellings(nil)
 	var bases []c19Base
 	addBase := func(id, class, src string) {
 		toks, lexErrs, err := c19Tokenize(src)
